@@ -78,6 +78,19 @@ InitSetup ==
     /\ out  = <<"init">>
     /\ hist = <<[e |-> "Setup", su |-> su]>>
 
+\* C14: one model (any data kind, also constant or none) exists; the other handles are free for restored copies
+InitOne ==
+  \E x \in [c : Cfgs \ DrawCfgs, s : Seeds \cup {0}, d : ValidData \cup {NoData}] :
+    LET su == [o \in Obj |-> IF o = 1 THEN x ELSE [c |-> NoCfg, s |-> 0, d |-> "absent"]] IN
+    /\ life = [o \in Obj |-> IF o # 1 THEN "absent" ELSE IF x.d = NoData THEN "unfitted" ELSE "fitted"]
+    /\ cfg  = [o \in Obj |-> IF o = 1 THEN x.c ELSE NoCfg]
+    /\ par  = [o \in Obj |-> IF o = 1 THEN ParOfSetup(x) ELSE NONE]
+    /\ rng  = [o \in Obj |-> IF o = 1 /\ x.s # 0 THEN Fresh(x.s) ELSE NONE]
+    /\ g    = G0
+    /\ art  = [k \in Arts |-> NoArt]
+    /\ out  = <<"init">>
+    /\ hist = <<[e |-> "Setup", su |-> su]>>
+
 Log(rec) == hist' = Append(hist, rec)
 On(a) == a \in Alphabet /\ Len(hist) < MaxLen
 
